@@ -11,6 +11,9 @@ REQUIRED_BRANCHES = [
     "stale-root-seen",                   # a call was prepared against an older root than the one it was introduced into
     "gate-released-by-an-introduction",  # harness: a call held in prepareSegment saw another batch introduced meanwhile
     "forced-order-achieved",             # deterministic scenario: all calls read one root and were introduced in the forced order
+    "merge-window:conflicting-call-during-file-merge",   # harness: a call naming a document of a segment under a FILE merge was
+                                         # introduced while the merger stood at EventKindMergeTaskIntroductionStart (merged segment written)
+    "merge-window:size-order-differs-from-id-order",     # …and the merged segments are ordered differently by live size and by id
     "conflicting-overlapping-calls",     # two calls overlapping in time, one adding a document under an id the other names
     "overlapping-calls",
     "unobserved-introduction",           # a batch without documents (no new segment): placed by the checker's search
